@@ -223,6 +223,8 @@ func c11Run(c *core.Ctx) {
 			`<html><head><meta http-equiv="refresh" content="5; charset=utf-8"><meta name="viewport" content="width=device-width"></head><body>`,
 			`<html><head><meta charset=""></head><body>`,
 			`<?xml version="1.0"?><a>`, `<?xml version="1.0" standalone="yes"?><!-- encoding="koi8-r" --><a>`,
+			// behind a byte-order mark: the mark decides, whatever follows
+			"\xEF\xBB\xBF<?xml version=\"1.0\"?><a>", "\xEF\xBB\xBF<html><body>", "\xEF\xBB\xBF\n<?xml version=\"1.0\"?>\n<a>",
 		}
 		bodies := [][]byte{[]byte("plain words"), []byte("caf\xe9 au lait"), []byte("caf\xc3\xa9 au lait"), []byte("Wait\x85 voil\xe0"), []byte("\x93quoted\x94"), []byte("na\xc3"), []byte("x\xe2\x82"), []byte("d\xe9j\xe0 vu \xc3\xa9")}
 		for pi, pro := range prologues {
